@@ -3,7 +3,7 @@ import ast
 import re
 
 from ..core import AnalysisError, norm
-from .common import (scope_nodes, effects, exceptions, paths_of, check_writers, arg_by_name, named_call_sites, ctor_sites)
+from .common import (paths_for_input, scope_nodes, effects, exceptions, paths_of, check_writers, arg_by_name, named_call_sites, ctor_sites)
 from ..sim import check_reach
 
 TOTAL_QUOTERS = {'repr', 'json.dumps', 'shlex.quote'}
@@ -109,16 +109,34 @@ def check_split(ctx, rule):
               '_starts_with_single_dash returns %s in scenario %s' % ((probs[0][2], probs[0][1]) if probs else ('', '')))
     f_sd = repo.func('arguments._strip_dashes')
     nsd = 0
-    for p in paths_of(repo, f_sd, while_unroll=2):
-        if p.outcome[0] != 'return':
-            continue
-        nsd += 1
-        t = norm(p.outcome[1])
-        k = t.count('[1:]')
-        vals = [v for a, v in p.decisions if a.text.endswith(".startswith('-')")]
-        ctx.check(t == 's' + '[1:]' * k and vals == [True] * k + [False], rule, 'split:strip-dashes:%d' % k, f_sd.loc(), '_strip_dashes removes exactly the leading dashes',
-                  '_strip_dashes returns %s after decisions %s' % (t, vals))
-    ctx.floor(rule, nsd, 2, 'returning paths of _strip_dashes')
+    sd_paths = paths_of(repo, f_sd, while_unroll=2)
+    if any(isinstance(n_, (ast.While, ast.For)) for g__, n_ in scope_nodes(repo, f_sd)):
+        # written as a loop: each returning path removes one dash per iteration and stops at the first non-dash
+        for p in sd_paths:
+            if p.outcome[0] != 'return':
+                continue
+            nsd += 1
+            t = norm(p.outcome[1])
+            k = t.count('[1:]')
+            vals = [v for a, v in p.decisions if a.text.endswith(".startswith('-')")]
+            ctx.check(t == 's' + '[1:]' * k and vals == [True] * k + [False], rule, 'split:strip-dashes:%d' % k, f_sd.loc(), '_strip_dashes removes exactly the leading dashes',
+                      '_strip_dashes returns %s after decisions %s' % (t, vals))
+        ctx.floor(rule, nsd, 2, 'returning paths of _strip_dashes')
+    else:
+        # written as one expression: folded for the shapes of word that matter (no dash, one, two, dashes inside and at the end, only dashes)
+        from ..peval import fold, Unfoldable
+        for sample, want in (('g', 'g'), ('-g', 'g'), ('--gdb', 'gdb'), ('-a-b-', 'a-b-'), ('---', ''), ('', '')):
+            for p in paths_for_input(sd_paths, {'s': sample}):
+                if p.outcome[0] != 'return':
+                    continue
+                nsd += 1
+                try:
+                    got = fold(p.outcome[1], {'s': sample})
+                except Unfoldable as ex_:
+                    raise AnalysisError('%s: cannot fold _strip_dashes (%s): %s' % (rule, norm(p.outcome[1])[:60], ex_))
+                ctx.check(got == want, rule, 'split:strip-dashes:%d' % (len(sample) - len(want)), f_sd.loc(), '_strip_dashes removes exactly the leading dashes',
+                          '_strip_dashes(%r) is %r, expected %r' % (sample, got, want))
+        ctx.floor(rule, nsd, 6, 'shapes of word folded through _strip_dashes')
     tops = [n for n in f_split.node.body if isinstance(n, ast.For)]
     ctx.check(len(tops) == 1 and norm(tops[0].iter) in ('range(len(args))', 'enumerate(args)') and any(isinstance(x, ast.For) for x in ast.walk(tops[0]) if x is not tops[0]), rule, 'split:position-loop-outermost', f_split.loc(),
               'the loop over positions is the outermost one, so the first marker position wins', 'outermost loop is %s' % [norm(t_.iter) for t_ in tops])
@@ -210,8 +228,8 @@ def run(ctx):
         if not shape:
             continue
         # ---- C19.6: the generated python command -------------------------------------------------------------------
-        parts = []
-        flat(v.left.elts[2], parts)
+        from ..sim import concat_parts, deep_ast
+        parts = concat_parts(deep_ast(v.left.elts[2]))
         njoin = 0
         for x in parts:
             if isinstance(x, ast.Constant):
@@ -299,14 +317,13 @@ def run(ctx):
         ctx.check(norm(p.outcome[1]) == want, 'C19.5', 'select_mode:%d-collected' % min(k, 2), f_sel.loc(), 'a mode is returned iff exactly one was requested',
                   '%d modes requested -> %s' % (k, norm(p.outcome[1])))
     ctx.floor('C19.5', nsel, 3, 'feasible paths of _select_mode')
-    # which request asks for which mode: a value option counts as given when it is not None (an empty value is still a request)
+    # which request asks for which mode: a value option counts as given when it is not None (an empty value is still a request).
+    # The marker part (which of '', 'g', 'r' the split returned) is decided by folding, so an if-chain and a lookup table are the same.
+    from ..peval import fold, Unfoldable, module_resolver
+    res_ = module_resolver(repo, f_sel.module)
+
     def m_mode(a):
         t = a.text
-        m_ = re.match(r"^'(\w)' == command_id$", t)
-        if m_:
-            return ('cmd_' + m_.group(1), True)
-        if t == "'' == command_id":
-            return ('cmd_none', True)
         if t == 'check_gdb()':
             return ('in_gdb', True)
         if t == 'args.path is None':
@@ -314,17 +331,34 @@ def run(ctx):
         if t == 'args.pipe':
             return ('pipe', True)
         return None
-    MODES = {'GDB_RUNNER': 'cmd_g', 'RUN': 'cmd_r', 'GDB_PLUGIN': 'in_gdb', 'LOAD_FROM_FILE': 'path', 'PIPE': 'pipe'}
+
+    def mode_of(e):
+        try:
+            v = fold(e.args[0], {'command_id': cur_marker[0]}, None, res_)
+        except Unfoldable:
+            return None
+        return v[1].split('.')[-1] if isinstance(v, tuple) and len(v) == 2 and v[0] == 'sym' else None
+    MODES = {'GDB_RUNNER': 'g', 'RUN': 'r', 'GDB_PLUGIN': 'in_gdb', 'LOAD_FROM_FILE': 'path', 'PIPE': 'pipe'}
+    cur_marker = ['']
     selp2 = [p for p in selp if not (p.outcome and p.outcome[0] == 'raise')]
-    for mode, atom in sorted(MODES.items()):
-        probs = check_reach(selp2, lambda e, mode=mode: e.kind == 'call' and e.ftext == 'modes.append' and e.args and norm(e.args[0]).endswith('Mode.' + mode), m_mode,
-                            lambda F, atom=atom: F[atom], feasible=lambda F: sum(1 for k in ('cmd_g', 'cmd_r', 'cmd_none') if F[k]) == 1,
-                            universe=['cmd_g', 'cmd_r', 'cmd_none', 'in_gdb', 'path', 'pipe'])
-        ctx.check(not probs, 'C19.5', 'select_mode:requested:%s' % mode, f_sel.loc(),
-                  'mode %s counts as requested exactly when %s' % (mode, {'cmd_g': 'the marker was -g', 'cmd_r': 'the marker was -r', 'in_gdb': 'we run inside GDB', 'path': 'a load path was given (not None)', 'pipe': 'the pipe flag is set'}[atom]),
-                  'mode %s requested=%s in scenario %s: the mode count (exactly one) is taken over the wrong set of requests' % ((mode, probs[0][2], probs[0][1]) if probs else (mode, '', '')))
-    others = {norm(e.args[0]) for p in selp for e in p.events if e.kind == 'call' and e.ftext == 'modes.append' and e.args} - {'Mode.' + m for m in MODES}
+    nreq = 0
+    others = set()
+    for marker in ('', 'g', 'r'):
+        cur_marker[0] = marker
+        ps_ = paths_for_input(selp2, {'command_id': marker}, None, res_)
+        nreq += len(ps_)
+        for p in ps_:
+            for e in p.events:
+                if e.kind == 'call' and e.ftext == 'modes.append' and e.args and mode_of(e) not in MODES:
+                    others.add(norm(e.args[0]))
+        for mode, atom in sorted(MODES.items()):
+            probs = check_reach(ps_, lambda e, mode=mode: e.kind == 'call' and e.ftext == 'modes.append' and bool(e.args) and mode_of(e) == mode, m_mode,
+                                (lambda F, atom=atom, marker=marker: (marker == atom) if atom in ('g', 'r') else F[atom]), universe=['in_gdb', 'path', 'pipe'])
+            ctx.check(not probs, 'C19.5', 'select_mode:requested:%s' % mode, f_sel.loc(),
+                      'mode %s counts as requested exactly when %s' % (mode, {'g': 'the marker was -g', 'r': 'the marker was -r', 'in_gdb': 'we run inside GDB', 'path': 'a load path was given (not None)', 'pipe': 'the pipe flag is set'}[atom]),
+                      'with marker %r mode %s requested=%s in scenario %s: the mode count (exactly one) is taken over the wrong set of requests' % ((marker, mode, probs[0][2], probs[0][1]) if probs else (marker, mode, '', '')))
     ctx.check(not others, 'C19.5', 'select_mode:known-modes', f_sel.loc(), 'only the five modes are ever requested', 'other requests: %s' % sorted(others))
+    ctx.floor('C19.5', nreq, 6, 'paths of _select_mode consistent with a marker')
     pap = None
     nonec = [x for x in f_pa.body_nodes() if isinstance(x, ast.If) and norm(x.test) in ('mode is None', 'not mode', 'None is mode')]
     ok = False
